@@ -190,6 +190,8 @@ def _sections_compare_ok(analysis: Analysis, helper) -> bool:
 
     def builder(expr, depth=0):
         """-> (subject name, count expression text) of a section-sequence builder."""
+        if isinstance(expr, ast.Name) and expr.id in env and depth < 3 and expr.id not in params:
+            return builder(env[expr.id], depth + 1)
         comp = None
         if isinstance(expr, (ast.ListComp, ast.GeneratorExp)):
             comp = expr
